@@ -753,7 +753,20 @@ def c04_14(ctx):
     return shared_obligations(ctx, ["tx", "script", "witness", "helper", "timelock"], "the result would depend on something other than the arguments and the object's current state")
 
 
+def c04_15(ctx):
+    """the 4-byte fields of a transaction take every value 0 .. 2^32 - 1: the Locktime and Sequence constructors accept exactly that
+    range (a transaction with locktime or sequence ffffffff can be parsed and built; nothing wider is written into 4 bytes)"""
+    out = []
+    for spec in ("timelock:Locktime.__new__", "timelock:Sequence.__new__"):
+        mod, fn = rl.get(ctx, spec)
+        p = param_names(fn)[1]
+        out += rl.accept_set(ctx, spec, [p], ISet.range(0, 0xFFFFFFFF), targets="returns", prefer=(0xFFFFFFFF, 0x100000000, -1, 0), exact=True,
+                             what="%s value `%s`" % (spec.split(":")[1].split(".")[0].lower(), p))
+    return out
+
+
 OBLIGATIONS = [
+    ("C04.15", "RANGE accept-set", c04_15),
     ("C04.14", "SHARED", c04_14),
     ("C04.13", "SET-ORDER", c04_13),
     ("C04.12", "MEMO", c04_12),
